@@ -19,6 +19,9 @@ CONSTANTS
  LoopChecksFlag = TRUE
  AssertLine = TRUE
  CapOrder <- GCap
+ SlotOf <- GSlot
+ TagCheck = TRUE
+ TinyTable = FALSE
  StopAllowed = FALSE
 INIT MCInit
 NEXT Next
